@@ -2380,6 +2380,17 @@ def candidates2(fn, stored_attrs) -> List[Cand]:
                 arg = L(ast.IfExp(test=e.test, body=e.body.args[0], orelse=e.orelse.args[0]), e)
                 _set(parent, field, idx, L(ast.Call(func=e.body.func, args=[arg], keywords=[]), e))
             out.append(("ifexp-arg-in", f))
+        # list(<generator>) <-> [comprehension];  set(<generator>) <-> {comprehension}
+        if isinstance(e, ast.Call) and isinstance(e.func, ast.Name) and e.func.id in ("list", "set") and len(e.args) == 1 and not e.keywords and isinstance(e.args[0], ast.GeneratorExp):
+            def f(parent=parent, field=field, idx=idx, e=e):
+                g = e.args[0]
+                _set(parent, field, idx, L((ast.ListComp if e.func.id == "list" else ast.SetComp)(elt=g.elt, generators=g.generators), e))
+            out.append(("ctor-gen-comp", f))
+        if isinstance(e, (ast.ListComp, ast.SetComp)):
+            def f(parent=parent, field=field, idx=idx, e=e):
+                g = L(ast.GeneratorExp(elt=e.elt, generators=e.generators), e)
+                _set(parent, field, idx, L(ast.Call(func=L(ast.Name(id="list" if isinstance(e, ast.ListComp) else "set", ctx=ast.Load()), e), args=[g], keywords=[]), e))
+            out.append(("comp-ctor-gen", f))
         # (A if c else B)(args)  <->  A(args) if c else B(args)
         if isinstance(e, ast.Call) and isinstance(e.func, ast.IfExp):
             def f(parent=parent, field=field, idx=idx, e=e):
